@@ -31,11 +31,11 @@ def mc_cfg(mode, tier, **legacy):
 OWNER = {"C01": "C01", "C02": "C02", "C03": "C03", "C04": "C04", "C14": "C14", "C17": "C17", "C18": "C18"}
 
 PROPS = {
-    "C01": dict(modes={"quick": [("path", "quick"), ("regexpos", "quick"), ("media2", "quick"), ("sufroot", "quick")],
+    "C01": dict(modes={"quick": [("path", "quick"), ("regexpos", "quick"), ("media2", "quick"), ("sufroot", "quick"), ("rootvar", "quick")],
                        "thorough": [("path", "thorough"), ("headers", "quick"), ("regexpos", "thorough"), ("media2", "quick")]},
                 plan=dict(perms=0, slash=False, entries=["D", "S"], conc=8),
                 random={"quick": [("mixed", 220, 20), ("headers", 80, 24), ("headers", 40, 24, {"defReqCT": "application/json"})],
-                        "thorough": [("mixed", 4000, 30), ("headers", 1500, 40), ("headers", 500, 40, {"defReqCT": "application/json"})]},
+                        "thorough": [("mixed", 2500, 30), ("headers", 1000, 40), ("headers", 300, 40, {"defReqCT": "application/json"})]},
                 # the package-level default request content type is for reading entities, not for routing
                 twins=[dict(name="defct", over={"defReqCT": "application/json"}, modes={"media2", "headers"})],
                 counter="judged",
@@ -48,7 +48,7 @@ PROPS = {
                        "thorough": [("headers", "thorough"), ("roots", "thorough"), ("path", "quick"), ("regexpos", "thorough"), ("media2", "quick"), ("sufroot", "quick")]},
                 plan=dict(perms=0, slash=False, entries=["D", "S"]),
                 random={"quick": [("headers", 150, 24), ("mixed", 150, 20)],
-                        "thorough": [("headers", 3000, 40), ("mixed", 3000, 30)]},
+                        "thorough": [("headers", 2000, 40), ("mixed", 2000, 30)]},
                 twins=[dict(name="tracing", over={"tracing": True})],
                 counter="judged",
                 rule="cases as for C01, from the header pools (method x Consumes x Produces x condition x body) and "
@@ -58,7 +58,7 @@ PROPS = {
     "C03": dict(modes={"quick": [("path", "quick"), ("roots", "quick"), ("order3", "quick"), ("roots4", "quick"), ("media", "quick")],
                        "thorough": [("path", "thorough"), ("roots", "thorough"), ("order3", "quick"), ("roots4", "quick"), ("media", "quick")]},
                 plan=dict(perms=3, slash=False, entries=["D"], late=True),
-                random={"quick": [("mixed", 200, 16), ("common", 100, 16)], "thorough": [("mixed", 4000, 30), ("common", 1500, 24)]},
+                random={"quick": [("mixed", 200, 16), ("common", 100, 16)], "thorough": [("mixed", 2000, 30), ("common", 800, 24)]},
                 # the root pools once more through ServeHTTP (the ServeMux registrations depend on the Add order)
                 twins=[dict(name="servehttp", over={"entries": ["S"]}, modes={"roots", "roots4"})],
                 counter="dominance",
@@ -66,15 +66,16 @@ PROPS = {
                      "separate real containers; outcomes are compared across orders and judged against dominance. "
                      "Non-trivial = observations in which >= 2 fully eligible routes (or >= 2 claiming services) "
                      "competed, counted by the trace spec."),
-    "C04": dict(modes={"quick": [("path", "quick"), ("regexpos", "quick")], "thorough": [("path", "thorough"), ("regexpos", "thorough")]},
+    "C04": dict(modes={"quick": [("path", "quick"), ("regexpos", "quick"), ("rootvar", "quick")],
+                       "thorough": [("path", "thorough"), ("regexpos", "thorough"), ("rootvar", "quick")]},
                 plan=dict(perms=0, slash=True, entries=["D"], conc=8),
-                random={"quick": [("mixed", 220, 20)], "thorough": [("mixed", 5000, 30)]},
+                random={"quick": [("mixed", 220, 20)], "thorough": [("mixed", 3000, 30)]},
                 counter="params",
                 rule="cases as for C01; Request.PathParameters() is read inside the invoked handler. Non-trivial = "
                      "judged route outcomes that bind at least one parameter, counted by the trace spec."),
     "C14": dict(modes={"quick": [("path", "quick"), ("roots", "quick")], "thorough": [("path", "thorough"), ("roots", "thorough"), ("headers", "quick")]},
                 plan=dict(perms=0, slash=True, entries=["D"], late=True, slashOptions=True),
-                random={"quick": [("slash", 220, 20)], "thorough": [("slash", 4000, 30), ("headers", 1000, 30)]},
+                random={"quick": [("slash", 220, 20)], "thorough": [("slash", 2500, 30), ("headers", 600, 30)]},
                 # through ServeHTTP, after a WebService sharing the ServeMux prefix was added first and removed again
                 twins=[dict(name="decoy", over={"entries": ["S"], "decoy": True, "late": False, "slashOptions": False}, modes={"roots"})],
                 counter="slashTwins",
@@ -83,13 +84,13 @@ PROPS = {
                      "without tail wildcard), counted by the trace spec."),
     "C18": dict(modes={"quick": [("agree", "quick")], "thorough": [("agree", "thorough")]},
                 plan=dict(perms=0, slash=True, entries=["D"], late=True),
-                random={"quick": [("common", 400, 24)], "thorough": [("common", 5000, 30)]},
+                random={"quick": [("common", 400, 24)], "thorough": [("common", 3000, 30)]},
                 counter="routerTwins",
                 rule="every request is sent to twin real containers differing only in Container.Router; Non-trivial = "
                      "requests on common-fragment tables observed under both routers, counted by the trace spec."),
     "C17": dict(modes={"quick": [("agree", "quick")], "thorough": [("agree", "thorough")]},
                 plan=dict(perms=0, slash=False, entries=["D"]),
-                random={"quick": [("allow", 300, 12), ("mixed", 120, 10)], "thorough": [("allow", 3000, 16), ("mixed", 1500, 16)]},
+                random={"quick": [("allow", 300, 12), ("mixed", 120, 10)], "thorough": [("allow", 2000, 16), ("mixed", 800, 16)]},
                 options=True,
                 counter="probes",
                 rule="for every URL of every table one probe request per method (7 methods) on a plain container and "
